@@ -443,6 +443,42 @@ instance agrees with attribute access — for `Dynamic` Parameter types too. -/
 theorem namespace_agrees (s : St) (ops : List Op) (h : Inv s) (hi : InstOk s) : Agrees (run s ops) :=
   agrees_of_inv _ (run_preserves_inv ops s h hi).1 (run_preserves_inv ops s h hi).2
 
+/-- **C13 (an added Parameter is installed).**  When `add_parameter(n, P)` — or `C.n = P` — returns
+normally on a class that is first on its own MRO, attribute lookup on that class finds `P`: the class
+attribute reads `P`'s default. -/
+theorem added_parameter_is_installed (s : St) (c : CId) (n : Name) (d : Int) (hi : Option Int) (k : Cls)
+    (rest : List CId) (hk : s.classes[c]? = some k) (hm : k.mro = c :: rest)
+    (hok : (addParamCore s c n d hi).2 = .ok) : clsAttr (addParamCore s c n d hi).1 c n = some d := by
+  unfold addParamCore at hok ⊢
+  simp only [hk] at hok ⊢
+  split at hok
+  · cases hok
+  · rename_i hacc
+    simp only [hacc, Bool.false_eq_true, if_false] at hok ⊢
+    split at hok
+    · rename_i hq
+      simp only [hq, if_true]
+      -- the final state has the class table of `clearDesc (setDict s c n p) c`
+      have hcl : (clearDesc { setDict { s with heap := s.heap ++ [{ default := d, hi := hi }] } c n s.heap.length with
+            heap := (setDict { s with heap := s.heap ++ [{ default := d, hi := hi }] } c n s.heap.length).heap.set s.heap.length
+              { default := d, hi := resolvedHi (setDict { s with heap := s.heap ++ [{ default := d, hi := hi }] } c n s.heap.length)
+                  s.heap.length k.mro n hi } } c).classes = (clearDesc (setDict s c n s.heap.length) c).classes := by
+        unfold clearDesc; simp only [setDict_classes_heap]
+      obtain ⟨e1, e2⟩ := shape_of_classes hcl
+      unfold clsAttr staticAttr descriptor
+      rw [e1, mroOf_clear_setDict]
+      have hmro : mroOf s c = c :: rest := by unfold mroOf; rw [hk]; exact hm
+      rw [hmro]
+      simp only [findIn, e2, clsDict_clear_setDict_self s c n s.heap.length k hk, aget_aset_self, Option.map_some,
+        Option.bind_some]
+      unfold defaultOf
+      have hheap : (setDict { s with heap := s.heap ++ [{ default := d, hi := hi }] } c n s.heap.length).heap
+          = s.heap ++ [{ default := d, hi := hi }] := by unfold setDict; split <;> rfl
+      show (((setDict { s with heap := s.heap ++ [{ default := d, hi := hi }] } c n s.heap.length).heap.set s.heap.length _)[s.heap.length]?).map _ = _
+      rw [hheap, List.getElem?_set]
+      simp
+    · cases hok
+
 /-- **C13 (watching).**  Registering a watcher succeeds exactly for the names that are reachable as
 Parameter attributes: `_register_watcher` tests membership in the (cached) namespace. -/
 theorem watch_succeeds_iff_reachable (s : St) (h : Inv s) (c : CId) (n : Name) :
